@@ -268,6 +268,8 @@ class SInt:
     __int__ = __index__
 
     def __hash__(s):
+        if s.lo is None or s.hi is None or s.hi - s.lo > 4096:
+            raise Unsupported("hash() of a symbolic int with a large domain (dict/set keyed by a symbolic value)")
         return hash(CUR.concretize(s.t))
 
     def __repr__(s):
